@@ -320,13 +320,17 @@ impl Engine for WrapEngine {
         &["C09"]
     }
     fn rule(&self, _p: &str) -> String {
-        "configuration = 1-5 recording layers in 1-3 top-level groups, each layer wrapped 0-3 times in {Box, Some, one-element Vec, reload, and_then with an Identity/None/empty-Vec neighbour}, extra None/empty-Vec/Identity groups, the collector as a whole plain/Box/Arc/Box<Box>, base collector Registry or an id-changing recording collector, optional veto (enabled for one callsite, or event_enabled for one event) by one layer; history = spans (new/clone/drop/enter/exit/record/follows_from) and events, in half of the runs that contain a reload wrapper raced (seeded schedules) by a second thread that sits inside Handle::modify holding the wrapper's write lock; non-trivial = at least 2 layers, at least one wrapper, and at least 5 lifecycle notifications; distinct = distinct plan digest".into()
+        "configuration = 1-5 recording layers in 1-3 top-level groups, each layer wrapped 0-3 times in {Box, Some, one-element Vec, reload, and_then with an Identity/None/empty-Vec neighbour}, extra None/empty-Vec/Identity groups, the collector as a whole plain/Box/Arc/Box<Box>, base collector Registry or an id-changing recording collector, optional veto (enabled for one callsite, or event_enabled for one event) by one layer; history = spans (new/clone/drop/enter/exit/record/follows_from) and events, in half of the runs that contain a reload wrapper raced (seeded schedules) by a second thread that sits inside Handle::modify holding the wrapper's write lock; a fifth of the runs instead wrap a recording per-layer Filter (nested) in {Box, Arc, Some, reload} and compare every operation's callbacks - the filter's, its layer's, an unfiltered neighbour's - with the same history under the bare filter; non-trivial = at least 2 layers, at least one wrapper, and at least 5 lifecycle notifications (filter runs: a wrapper, >=6 filter callbacks and a veto); distinct = distinct plan digest".into()
     }
     fn components(&self) -> Value {
         json!({"real": ["Layered (Collect and Subscribe impls)", "forwarding impls for Box/Arc<Collect>, Box<dyn Subscribe>, Option, Vec, reload::Subscriber, Identity", "Registry"], "stub": ["recording layers (PlainLayer)", "id-changing base collector"]})
     }
     fn generate(&self, g: &GenCtx) -> Value {
         let mut rng = Rng::new(g.seed);
+        // a fifth of the runs check wrappers around a per-layer *filter* (differential twin, see fwrap.rs)
+        if rng.chance(1, 5) {
+            return crate::fwrap::generate(&mut rng, &g.prop, &g.mode, g.tier == "thorough");
+        }
         let nlayers = rng.range(1, 5);
         let ngroups = rng.range(1, 3).min(nlayers);
         // distribute layers over groups in order (inner -> outer)
@@ -397,6 +401,9 @@ impl Engine for WrapEngine {
     }
 
     fn execute(&self, plan: &Value) -> RunResult {
+        if plan["cfg"]["fw"].is_object() {
+            return crate::fwrap::execute(plan);
+        }
         let sched = plan_sched(plan);
         let groups: Vec<Value> = plan["cfg"]["groups"].as_array().cloned().unwrap_or_default();
         let base = plan["cfg"]["base"].as_str().unwrap_or("registry").to_string();
